@@ -14,10 +14,10 @@ TRUSTED = [
 ASSUMPTIONS = ["each context has three up commands (a failure is the middle one's) and one down / before / after command"]
 
 
-def mk_ctx(c, up_ok=True, cb_ok=True):
+def mk_ctx(c, up_ok=True, cb_ok=True, down_ok=True):
     # several up commands: all of them run; the start-up failed if ANY of them failed (here the middle one), not only the last
     return {"up": ['echo upb.%d >> "$TRACE"' % c, "exit %d" % (0 if up_ok else 3), 'sleep 0.03; echo upe.%d >> "$TRACE"' % c],
-            "down": ['echo down.%d >> "$TRACE"' % c],
+            "down": ['echo down.%d >> "$TRACE"; exit %d' % (c, 0 if down_ok else 6)],       # a failing down must not keep other contexts from theirs
             "before": ['echo cb.%d >> "$TRACE"; exit %d' % (c, 0 if cb_ok else 4)],
             "after": ['echo ca.%d >> "$TRACE"' % c], "env": {"CTXN": str(c)}}
 
@@ -49,6 +49,7 @@ def gen_cases(ctx):
         nrun = rng.randint(1, 8)
         upok = [rng.random() > 0.2 for _ in range(nctx)]
         cbok = [rng.random() > 0.12 for _ in range(nctx)]
+        downok = [rng.random() > 0.35 for _ in range(nctx)]
         ctxs = [rng.randrange(nctx) for _ in range(nrun)]
         oks = [rng.random() > 0.3 for _ in range(nrun)]
         shapes = [{"cond": rng.choice([None, None, "true", "false"]), "before": rng.random() < 0.4, "after": rng.random() < 0.4} for _ in range(nrun)]
@@ -56,14 +57,18 @@ def gen_cases(ctx):
         if k < 2:      # corpus: a task with condition, before and after (the shape on which the pinned code ran the context's before 4 times)
             shapes[0] = {"cond": "true", "before": True, "after": True}
             upok, cbok = [True] * nctx, [True] * nctx
-        cases.append({"id": len(cases), "nctx": nctx, "ctxs": ctxs, "upok": upok, "cbok": cbok, "oks": oks, "shapes": shapes, "mode": mode, "kind": mode})
+        if k in (6, 7, 8):   # corpus: three contexts, all used, every down fails / only one fails
+            nctx, ctxs, upok, cbok = 3, [0, 1, 2] + ctxs, [True] * 3, [True] * 3
+            downok = [[False] * 3, [False, True, True], [True, True, False]][k - 6]
+            oks, shapes = [True] * 3 + oks, [{"cond": None, "before": False, "after": False}] * 3 + shapes
+        cases.append({"id": len(cases), "nctx": nctx, "ctxs": ctxs, "upok": upok, "cbok": cbok, "downok": downok, "oks": oks, "shapes": shapes, "mode": mode, "kind": mode})
     return cases
 
 
 def to_engine(c, workdir):
     n = len(c["ctxs"])
     tasks = [mk_task(r, c["ctxs"][r], c["shapes"][r], c["oks"][r]) for r in range(n)]
-    contexts = {"c%d" % i: mk_ctx(i, c["upok"][i], c["cbok"][i]) for i in range(c["nctx"])}
+    contexts = {"c%d" % i: mk_ctx(i, c["upok"][i], c["cbok"][i], c.get("downok", [True] * 8)[i]) for i in range(c["nctx"])}
     if c["mode"] == "seq":
         plan = [{"op": "run", "tasks": list(range(n))}]
     elif c["mode"] == "par":
@@ -104,7 +109,9 @@ def cli_jobs(ctx, first):
     jobs = []
     ctxd = {"cx": {"up": ['echo upb.0 >> "$PROJ/trace"; echo upe.0 >> "$PROJ/trace"'], "down": ['echo down.0 >> "$PROJ/trace"'],
                    "before": ['echo cb.0 >> "$PROJ/trace"'], "after": ['echo ca.0 >> "$PROJ/trace"']},
-            "unused": {"up": ['echo upb.1 >> "$PROJ/trace"'], "down": ['echo down.1 >> "$PROJ/trace"']}}
+            "unused": {"up": ['echo upb.1 >> "$PROJ/trace"'], "down": ['echo down.1 >> "$PROJ/trace"']},
+            "cy": {"up": ['echo upb.2 >> "$PROJ/trace"; echo upe.2 >> "$PROJ/trace"'], "down": ['echo down.2 >> "$PROJ/trace"; exit 7']},
+            "cz": {"up": ['echo upb.3 >> "$PROJ/trace"; echo upe.3 >> "$PROJ/trace"'], "down": ['echo down.3 >> "$PROJ/trace"; exit 7']}}
     tasks = {"ok0": {"context": "cx", "command": ['echo body.0 >> "$PROJ/trace"']},
              "ok1": {"context": "cx", "command": ['echo body.1 >> "$PROJ/trace"'], "condition": "true", "before": ["true"], "after": ["true"]},
              "bad2": {"context": "cx", "command": ['echo body.2 >> "$PROJ/trace"; exit 3']},
